@@ -8,7 +8,7 @@
 use crate::{
     ExecError,
     function::{Body, Function},
-    instruction::{ExecResult, ExecStop, Instruction},
+    instruction::{ExecResult, ExecStop, Instruction, InstructionWithStr},
     interpreter::Interpreter,
     variable::{ReturnType, Type, Variable},
 };
@@ -16,7 +16,7 @@ use std::{
     cell::{Cell, RefCell},
     collections::HashMap,
     panic::{AssertUnwindSafe, catch_unwind},
-    sync::Arc,
+    sync::{Arc, Weak},
 };
 
 /// What an instruction produced.
@@ -91,7 +91,9 @@ thread_local! {
     static TICKS: Cell<u64> = const { Cell::new(0) };
     static HELPER_SCOPE: RefCell<Vec<&'static str>> = const { RefCell::new(Vec::new()) };
     static FRAMES: RefCell<Vec<Option<&'static str>>> = const { RefCell::new(Vec::new()) };
-    static HELPER_BODIES: RefCell<HashMap<usize, &'static str>> = RefCell::new(HashMap::new());
+    // keyed by the address of a function body; the weak reference keeps that address from being
+    // reused by another allocation for as long as the entry exists
+    static HELPER_BODIES: RefCell<HashMap<usize, (Weak<[InstructionWithStr]>, &'static str)>> = RefCell::new(HashMap::new());
     static LAST_RETURN_HELPER: Cell<Option<&'static str>> = const { Cell::new(None) };
     static SRC: RefCell<Vec<Arc<str>>> = const { RefCell::new(Vec::new()) };
 }
@@ -241,9 +243,9 @@ fn in_helper_frame() -> bool {
     helper_frame().is_some()
 }
 
-fn body_key(function: &Function) -> Option<usize> {
+fn body_key(function: &Function) -> Option<(usize, &Arc<[InstructionWithStr]>)> {
     match &function.body {
-        Body::Lang(body) => Some(Arc::as_ptr(body) as *const u8 as usize),
+        Body::Lang(body) => Some((Arc::as_ptr(body) as *const u8 as usize, body)),
         Body::Native(_) => None,
     }
 }
@@ -254,17 +256,28 @@ pub(crate) fn function_created(function: &Function) {
         return;
     }
     if let Some(kind) = helper_scope_kind().or_else(helper_frame)
-        && let Some(key) = body_key(function)
+        && let Some((key, body)) = body_key(function)
     {
         HELPER_BODIES.with(|h| {
-            h.borrow_mut().insert(key, kind);
+            let mut map = h.borrow_mut();
+            if map.len() > 50_000 {
+                map.retain(|_, (body, _)| body.strong_count() > 0);
+            }
+            map.insert(key, (Arc::downgrade(body), kind));
         });
     }
 }
 
 /// Some(kind) if this function is one of the interpreter's own generic helper closures
 pub fn is_helper(function: &Function) -> Option<&'static str> {
-    body_key(function).and_then(|key| HELPER_BODIES.with(|h| h.borrow().get(&key).copied()))
+    body_key(function).and_then(|(key, _)| {
+        HELPER_BODIES.with(|h| {
+            h.borrow()
+                .get(&key)
+                .filter(|(body, _)| body.strong_count() > 0)
+                .map(|(_, kind)| *kind)
+        })
+    })
 }
 
 pub(crate) fn kind(instruction: &Instruction) -> (&'static str, String) {
